@@ -61,23 +61,23 @@ impl impl_details::CacheImplDetails for MemoryStore {
         }
     }
 
-    fn check_if_expired(&self, key: &KeyType, record: &Record) -> bool {
+    fn check_if_expired(&self, key: &KeyType, record: &Record) -> Option<usize> {
         let current_time = self.timer.timestamp();
 
         if record.header.time_to_live == 0 {
-            return false;
+            return None;
         }
 
         if record.header.timestamp + (record.header.time_to_live as u64) > current_time {
-            return false;
+            return None;
         }
         // drop the record only if what is stored now is (still) expired: a record
         // stored since this one was read must not be removed
-        self.memory.remove_if(key, |_key, stored| {
+        let dropped = self.memory.remove_if(key, |_key, stored| {
             stored.header.time_to_live != 0
                 && stored.header.timestamp + (stored.header.time_to_live as u64) <= current_time
         });
-        true
+        Some(dropped.map_or(0, |key_value| key_value.1.len()))
     }
 }
 
@@ -99,8 +99,8 @@ impl Cache for MemoryStore {
                         record.header.cas = self.get_cas_id();
                         record.header.timestamp = self.timer.timestamp();
                         let cas = record.header.cas;
-                        key_value.insert(record);
-                        Ok(SetStatus { cas })
+                        let replaced = key_value.insert(record).len();
+                        Ok(SetStatus { cas, replaced })
                     }
                 }
                 Entry::Vacant(vacant) => {
@@ -109,7 +109,7 @@ impl Cache for MemoryStore {
                     record.header.timestamp = self.timer.timestamp();
                     let cas = record.header.cas;
                     vacant.insert(record);
-                    Ok(SetStatus { cas })
+                    Ok(SetStatus { cas, replaced: 0 })
                 }
             }
         } else {
@@ -118,8 +118,8 @@ impl Cache for MemoryStore {
             let cas = self.get_cas_id();
             record.header.cas = cas;
             record.header.timestamp = self.timer.timestamp();
-            self.memory.insert(key, record);
-            Ok(SetStatus { cas })
+            let replaced = self.memory.insert(key, record).map_or(0, |old| old.len());
+            Ok(SetStatus { cas, replaced })
         }
     }
 
